@@ -179,12 +179,14 @@ class Tracer:
             proj = '.' + core['name'] + proj
             core = peel(core['e'])
         if core.get('k') == 'call':
+            L = self.label(core)
+            if L is not None:
+                return L + proj
             sh = short(callee(core))
             if sh in ('clone', 'as_ref', 'as_mut', 'iter', 'into_iter', 'iter_mut', 'take', 'to_owned') and core['args']:
                 inner = self.source_label(core['args'][0])
                 return inner + proj if inner else None
-            L = self.label(core)
-            return L + proj if L is not None else None
+            return None
         if core.get('k') == 'path' and core.get('res') == 'local':
             b = self.env.get(core.get('id'))
             if b and b[0] == 'from':
